@@ -549,10 +549,19 @@ Qed.
 
 (** ... and for two fields: V(x,y) = x*y is differentiable with continuous gradient (y, x) *)
 Example two_field_hypotheses_satisfiable :
+  let e := mk_penv (fun F _ i => match i with O => F 1%nat | _ => F 0%nat end) false
+                   (fun _ _ _ _ => 0) (fun f => f 0%nat + f 1%nat)
+                   (fun _ => zmapW) (fun _ => JW) (fun _ => 1) in
+  (forall f, fieldSum e f = f 0%nat + f 1%nat) /\ includeOffEq e = false /\
+  (forall F c i, offEq e incoming_boltzmann_version F c i = 0) /\
+  (forall F c, dVdPhi e F (Tprof e c) 0%nat = (fun x y : R => y) (F 0%nat) (F 1%nat)) /\
+  (forall F c, dVdPhi e F (Tprof e c) 1%nat = (fun x y : R => x) (F 0%nat) (F 1%nat)) /\
   (forall x y, differentiable_pt_lim (fun x y => x * y) x y y x) /\
   (forall x y, continuous (fun p : R * R => snd p) (x, y)) /\
   (forall x y, continuous (fun p : R * R => fst p) (x, y)).
 Proof.
+  cbn. split; [intros; reflexivity|]. split; [reflexivity|]. split; [intros; reflexivity|].
+  split; [intros; reflexivity|]. split; [intros; reflexivity|].
   split; [|split].
   - intros x y eps. exists eps. intros u v Hu Hv.
     replace (u * v - x * y - (y * (u - x) + x * (v - y))) with ((u - x) * (v - y)) by ring.
